@@ -3,6 +3,7 @@ package tk
 import (
 	"fmt"
 	"math"
+	"strconv"
 	"strings"
 
 	"github.com/bradenaw/juniper/container/tree"
@@ -117,6 +118,10 @@ func IntCmpMap(counted bool) Config[int, int] {
 // extremeMag is a three-way compare of ints whose results range over everything a compare function
 // may return: -1/+1, scaled differences, and the extremes math.MinInt / math.MaxInt (negating
 // MinInt gives MinInt again), chosen by the pair of arguments so that the function stays pure.
+// magFactor scales key differences (|a-b| < 10^5 in every universe) without overflowing int on
+// 32-bit targets.
+const magFactor = (strconv.IntSize/32-1)*1000003 + (2-strconv.IntSize/32)*10007 // 1000003 with 64-bit ints, 10007 with 32-bit ints
+
 func extremeMag(a, b int) int {
 	if a == b {
 		return 0
@@ -134,7 +139,7 @@ func extremeMag(a, b int) int {
 		case 2:
 			return math.MinInt + 1
 		}
-		return (a - b) * 1000003
+		return (a - b) * magFactor
 	}
 	switch k {
 	case 0:
@@ -142,7 +147,7 @@ func extremeMag(a, b int) int {
 	case 1:
 		return 1
 	}
-	return (a - b) * 1000003
+	return (a - b) * magFactor
 }
 
 // IntMagCmpMap: a compare function returning arbitrary magnitudes (a-b scaled).
